@@ -34,21 +34,29 @@ import time
 from typing import Any, Callable, Optional
 
 from harness.core import Ctx, Driver, REPO, VERIF
+import harness.lib_c18 as L
 
 PROPS = 'XsVerif.Props.C18'
 AUDIT = 'XsVerif.Audit.C18'
 LEAN_TARGETS = ['XsVerif.Props.C18', 'drv_c18']
-LEANCHECK = ['XsVerif.Model.Threads', 'XsVerif.Lemmas.Threads', 'XsVerif.Props.C18']
+LEANCHECK = ['XsVerif.Model.Threads', 'XsVerif.Model.ThreadsWiden', 'XsVerif.Model.ThreadsCache', 'XsVerif.Lemmas.Threads',
+             'XsVerif.Lemmas.ThreadsWiden', 'XsVerif.Lemmas.ThreadsCache', 'XsVerif.Props.C18']
 RULE = ('a case = (schema, number of threads, per-thread call lists, schedule seed / stress round / forced '
         'schedule); non-trivial = at least one thread switch happened strictly inside a library call of another '
         'thread (controlled), or the build lock was contended (a thread found it held or found `_built` already '
         'set under the lock), or a forced window was actually reached; distinct by canonical JSON')
-TRUSTED = ['CPython GIL: the real switch points are finer than function calls; C-level atomicity of dict/set '
-           'operations is trusted; the controlled scheduler explores call-granularity interleavings, the stress '
-           'run samples the rest',
-           'threading.Lock semantics (mutual exclusion, no spurious release)']
+TRUSTED = ['CPython GIL: a Python statement that performs ONE operation on a shared dict/set/list/attribute (in, add, '
+           '__setitem__, get, pop, clear, truth value, iterator creation, one next(), tuple(set)) and the C part of an '
+           'lru_cache call are atomic; inside the modelled functions the controlled scheduler switches at every line, '
+           'elsewhere at library calls, the stress run samples the rest',
+           'threading.Lock semantics (mutual exclusion, no spurious release)',
+           'the logging subclasses of set/dict that replace xsi_types / selected_by / identity.elements behave as the '
+           'built-in containers (they only add a log entry per operation)']
 ASSUMPTIONS = ['documents do not trigger loading of additional schemas during validation (stated in the property)',
-               'non-lazy resources (the lazy iteration lock is not exercised)']
+               'every thread passes its own document / resource object (the lazy iteration try-lock of a resource is '
+               'per resource, not per schema, and is not exercised)',
+               'threads reach the schema through build() or a built schema (a thread that reads cached properties of an '
+               'unbuilt schema without calling build() is outside the property)']
 
 FINDINGS_FILE = VERIF / 'notes' / 'findings' / 'C18.json'
 PREFIX = str(REPO / 'xmlschema') + os.sep
@@ -586,16 +594,753 @@ def forced_window(ctx: Ctx, base: Baseline, drv: Optional[Driver], window: str) 
                 ctx.mismatch('forced F1 schedule on the model', case, None, m)
 
 
+# =============================================================================================
+#  LINE granularity inside the modelled functions
+# =============================================================================================
+F3_XSD = """<xs:schema xmlns:xs="http://www.w3.org/2001/XMLSchema" targetNamespace="urn:t" xmlns:t="urn:t"
+    elementFormDefault="qualified">
+ <xs:element name="root"><xs:complexType><xs:sequence>
+   <xs:element name="item" type="t:Base" minOccurs="0" maxOccurs="unbounded">
+     <xs:unique name="iu"><xs:selector xpath="t:k"/><xs:field xpath="."/></xs:unique>
+   </xs:element>
+   <xs:element name="item2" type="t:Base" minOccurs="0" maxOccurs="unbounded">
+     <xs:unique name="iu2"><xs:selector xpath="t:k|t:j"/><xs:field xpath="."/></xs:unique>
+     <xs:key name="ik2"><xs:selector xpath="t:j"/><xs:field xpath="."/></xs:key>
+   </xs:element>
+   <xs:element name="item3" type="t:Base" minOccurs="0" maxOccurs="unbounded">
+     <xs:unique name="iu3"><xs:selector xpath="t:k"/><xs:field xpath="."/></xs:unique>
+   </xs:element>
+ </xs:sequence></xs:complexType></xs:element>
+ <xs:complexType name="Base"><xs:sequence/></xs:complexType>
+ <xs:complexType name="Ext"><xs:complexContent><xs:extension base="t:Base">
+   <xs:sequence><xs:element name="k" type="xs:string" maxOccurs="unbounded"/></xs:sequence>
+ </xs:extension></xs:complexContent></xs:complexType>
+ <xs:complexType name="Ext2"><xs:complexContent><xs:extension base="t:Base">
+   <xs:sequence><xs:element name="k" type="xs:string" minOccurs="0" maxOccurs="unbounded"/>
+     <xs:element name="j" type="xs:string" minOccurs="0" maxOccurs="unbounded"/></xs:sequence>
+ </xs:extension></xs:complexContent></xs:complexType>
+</xs:schema>"""
+
+
+def f3doc(body: str) -> str:
+    return f'<t:root xmlns:t="urn:t" xmlns:xsi="{XSI}">{body}</t:root>'
+
+
+F3_DOCS = [
+    f3doc('<t:item xsi:type="t:Ext"><t:k>x</t:k><t:k>x</t:k></t:item>'),
+    f3doc('<t:item2 xsi:type="t:Ext"><t:k>y</t:k><t:k>y</t:k></t:item2>'),
+    f3doc('<t:item3 xsi:type="t:Ext"><t:k>z</t:k><t:k>w</t:k></t:item3>'),
+    f3doc('<t:item2 xsi:type="t:Ext2"><t:k>y</t:k><t:j>y</t:j><t:j>q</t:j></t:item2>'),
+    f3doc('<t:item xsi:type="t:Ext2"><t:k>a</t:k><t:k>a</t:k><t:j>a</t:j></t:item><t:item3 xsi:type="t:Ext2"><t:k>b</t:k></t:item3>'),
+    f3doc('<t:item xsi:type="t:Ext"><t:k>1</t:k></t:item><t:item2 xsi:type="t:Ext"><t:k>1</t:k><t:k>1</t:k></t:item2>'),
+    f3doc('<t:item/><t:item2/>'),
+]
+F3_ERR = ['raised', 'RuntimeError', 'Set changed size during iteration']
+
+
+class LineHooks:
+    """what the line tracer does besides switching: labels of build() lines, cache events"""
+
+    def __init__(self, schema: Any, with_caches: bool):
+        self.codes = L.modelled_codes()
+        self.build = L.BuildLines()
+        self.maps = schema.maps
+        self.acquired: set = set()
+        self.cl: Optional[L.CacheLog] = L.CacheLog(Events.tid) if with_caches else None
+        self.func_codes: set = set()
+        if with_caches:
+            from xmlschema.caching import _cached_functions
+            self.func_codes = {f.__code__ for f in _cached_functions if hasattr(f, '__code__')}
+        self.lines = 0
+
+    def line(self, frame: Any, t: int) -> None:
+        self.lines += 1
+        code = frame.f_code
+        if code is self.build.code:
+            if frame.f_locals.get('self') is self.maps and Events.target is self.maps:
+                lab = self.build.label.get(frame.f_lineno)
+                if lab == 'L:with' and t in self.acquired:
+                    lab = 'L:exit'
+                if lab is not None:
+                    Events.log.append([t, lab, True])
+        elif self.cl is not None and code is self.cl.cp_code:
+            self.cl.cp_line(frame)
+
+    def enter(self, frame: Any, t: int) -> None:
+        if self.cl is not None and frame.f_code is self.cl.call_code:
+            self.cl.call_enter(frame)
+
+    def ret(self, frame: Any, arg: Any, t: int) -> None:
+        if self.cl is not None:
+            code = frame.f_code
+            if code is self.cl.cp_code:
+                self.cl.cp_return(frame, arg)
+            elif code is self.cl.call_code:
+                self.cl.call_return(frame, arg)
+
+
+def make_line_tracer_factory(hooks: LineHooks, p_line: float) -> Callable:
+    def factory(sched: Sched, t: int) -> Callable:
+        codes = hooks.codes
+        fcodes = hooks.func_codes
+        cl = hooks.cl
+
+        def local(frame, event, arg):
+            if event == 'line':
+                hooks.line(frame, t)
+                if not sched.free and sched.rng.random() < p_line:
+                    sched.inner_switches += 1
+                    sched.switch(t)
+            elif event == 'return':
+                hooks.ret(frame, arg, t)
+            return local
+
+        def flocal(frame, event, arg):
+            if event == 'return' and cl is not None:
+                cl.func_return(frame, arg)
+            return flocal
+
+        def tracer(frame, event, arg):
+            if event != 'call':
+                return None
+            code = frame.f_code
+            if code in codes:
+                hooks.enter(frame, t)
+                sched.yield_point(t)
+                return local
+            if code in fcodes:
+                if cl is not None:
+                    cl.func_enter(frame)
+                sched.yield_point(t)
+                return flocal
+            if code.co_filename.startswith(PREFIX):
+                sched.yield_point(t)
+            return None
+        return tracer
+    return factory
+
+
+_BUILD_LEN: dict = {}
+
+
+def build_lengths(xsd: str) -> tuple[int, int]:
+    """number of statements of build() executed before / after `self._built = True` by a sequential build of
+    this schema (line events of the build() frame of the target maps)"""
+    if xsd not in _BUILD_LEN:
+        schema = fresh(xsd, False)
+        hooks = LineHooks(schema, False)
+        Events.install()
+        Events.target = schema.maps
+        Events.log = []
+        Events.tids = {threading.get_ident(): 0}
+        sched = Sched(1, random.Random(0), {})
+        sched.free = True
+        sys.settrace(make_line_tracer_factory(hooks, 0.0)(sched, 0))
+        try:
+            schema.build()
+        finally:
+            sys.settrace(None)
+            Events.target = None
+        labs = [e[1] for e in Events.log]
+        _BUILD_LEN[xsd] = (labs.count('L:body') - 1, labs.count('L:post'))
+        Events.log = []
+    return _BUILD_LEN[xsd]
+
+
+def line_build_experiment(ctx: Ctx, lbatch: list, base: Baseline, docs: list, n: int, seed: int, p_line: float, idx: int) -> None:
+    """n threads race through build() of one unbuilt schema with a possible switch at EVERY line of build() (and
+    of the functions it shares state through); the line + shared-state event log is replayed on the model"""
+    rng = random.Random(seed)
+    jobs = random_jobs(rng, n, docs, 1)
+    body, post = build_lengths(base.xsd)
+    schema = fresh(base.xsd, False)
+    sched = Sched(n, random.Random(seed + 1), {'p': 0.002})
+    bl, cl = instrument(schema, sched)
+    hooks = LineHooks(schema, False)
+    orig_acquire = bl.acquire
+
+    def acquire(*a: Any, **k: Any) -> bool:
+        r = orig_acquire(*a, **k)
+        hooks.acquired.add(Events.tid())
+        return r
+    bl.acquire = acquire      # type: ignore
+    case = {'line-build': idx, 'seed': seed, 'threads': n, 'p_line': p_line, 'schema': 'pool' if base.xsd == POOL_XSD else 'other',
+            'jobs': [[(o, docs.index(x)) for o, x in j] for j in jobs]}
+    full = dict(case, xsd=base.xsd, docs=docs, line=True)
+    try:
+        results, hung = run_threads(schema, jobs, sched, True, make_line_tracer_factory(hooks, p_line))
+    finally:
+        Events.target = None
+    judge(ctx, full, base, schema, jobs, results, hung, True)
+    facts = build_facts(n)
+    if not hung and not sched.abandoned:
+        if facts['runs'] != 1:
+            ctx.failure('the build body ran %d times (must be exactly once)' % facts['runs'], full, facts)
+        # a thread may call build() again (validation entry points do): every call is its own model thread
+        cur = {t: t for t in range(n)}
+        count = {t: 0 for t in range(n)}
+        evs = []
+        for t, k, v in Events.log:
+            if k == 'L:rd0':
+                cur[t] = t + n * count[t]
+                count[t] += 1
+            evs.append([cur[t], k, v])
+        nv = n * max(1, max(count.values()))
+        used = sorted({e[0] for e in evs})
+        lbatch.append(({'op': 'replayL', 'threads': nv, 'body': body, 'post': post, 'events': evs}, case,
+                       dict(facts, used=used), n))
+    ctx.count('line-build:line-events', hooks.lines)
+    ctx.count('line-build:switches', sched.switches)
+    ctx.case(case, sched.inner_switches > 0, tag=f'line/build/{n} threads')
+
+
+def flush_lines(ctx: Ctx, lbatch: list, drv: Optional[Driver]) -> None:
+    if drv is None or not lbatch:
+        lbatch.clear()
+        return
+    answers = drv.query([b[0] for b in lbatch])
+    for (req, case, facts, n), m in zip(lbatch, answers):
+        ctx.traces += 1
+        ctx.count('replay:' + req['op'])
+        if 'err' in m:
+            ctx.mismatch('driver error', case, None, m)
+        elif not m['ok']:
+            ctx.mismatch(f"{req['op']}: the observed line-level event log is not a trace of the model", case,
+                         req['events'][:60], m['why'])
+        elif req['op'] == 'replayL':
+            if m['runs'] != facts['runs'] or not m['built'] or m['maps'] != 'complete' \
+                    or any(m['pcs'][t] != 'done:complete' for t in facts['used']):
+                ctx.mismatch('final state of the build lock (line-level replay)', case, facts, m)
+        elif req['op'] == 'xwreplay':
+            want_pcs = ['err' if r else 'idle' for r in facts['raised']]
+            if m['pcs'] != want_pcs:
+                ctx.mismatch('xwreplay: final pcs', case, want_pcs, m['pcs'])
+            if m['facts'] != facts['facts']:
+                ctx.mismatch('xwreplay: final shared state of the widening differs from the model', case, facts['facts'], m['facts'])
+            # the proved invariants, evaluated on the replayed run
+            for t, obs in enumerate(m['obs']):
+                for e, ids, seen in obs:
+                    for p in seen:
+                        if e in dict(map(tuple, req['sel'])).get(p, []) and dict(map(tuple, req['idOf']))[p] not in ids:
+                            ctx.mismatch('xwreplay: xsi_widening_own_pairs_collected violated on a replayed trace', case, None, [t, e, ids, seen])
+        elif req['op'] == 'creplay':
+            if not m['sound'] or any(p != 'idle' for p in m['pcs']):
+                ctx.mismatch('creplay: final state of the caches', case, None, m)
+    lbatch.clear()
+
+
+def fact_strings(facts: list) -> list:
+    return sorted({'xsi:%d' % a if k == 'xsi' else '%s:%d:%d' % (k, a, b) for k, a, b in facts})
+
+
+def canon_facts(wl: 'L.WidenLog') -> list:
+    """facts with pairs named by (declaration, type name, identity) so that two schema objects can be compared"""
+    out = []
+    names = {v: (k[0], getattr(wl.pair_objs[v][1], 'name', None), k[2]) for k, v in wl.pairs.items()}
+    for k, a, b in wl.facts():
+        out.append([k, list(names[a]), 0] if k == 'xsi' else [k, a, b])
+    return sorted(out, key=json.dumps)
+
+
+def line_widen_experiment(ctx: Ctx, lbatch: list, base: Baseline, docs: list, n: int, seed: int, p_line: float,
+                          idx: int, variant: dict, kind: str) -> None:
+    """n threads validate documents with one BUILT schema; possible switch at every line of raw_decode /
+    update_elements / collect_key_fields / the cache front ends; the shared-state event log of the widening and
+    of the caches is replayed on the models; the final shared state is compared with the model's and with a
+    sequential run of the same documents on another schema object."""
+    rng = random.Random(seed)
+    jobs = [[('iter_errors', rng.choice(docs)) for _ in range(rng.choice([1, 1, 2]))] for _ in range(n)]
+    schema = fresh(base.xsd, True)
+    sched = Sched(n, random.Random(seed + 1), {'p': 0.002})
+    instrument(schema, sched)
+    wl = L.instrument_widening(schema, Events.tid)
+    s0 = wl.facts()
+    hooks = LineHooks(schema, True)
+    # cached properties of temporary objects (selectors, contexts) are private to a call: watch the schema's own objects
+    alive = list(schema.maps.iter_components()) + list(schema.maps._schemas) + [schema.maps]
+    hooks.cl.watch_instances = {id(x) for x in alive}
+    case = {'line-widen': idx, 'seed': seed, 'threads': n, 'p_line': p_line, 'schema': kind,
+            'jobs': [[(o, docs.index(x)) for o, x in j] for j in jobs]}
+    full = dict(case, xsd=base.xsd, docs=docs, line=True)
+    try:
+        results, hung = run_threads(schema, jobs, sched, False, make_line_tracer_factory(hooks, p_line))
+    finally:
+        Events.target = None
+    wl.on = False
+    judge(ctx, full, base, schema, jobs, results, hung, False)
+    if hung or sched.abandoned:
+        ctx.count('line-widen:abandoned')
+        ctx.case(case, False, tag=f'line/widen/{kind} (abandoned)')
+        return
+    raised = [any(r[:3] == F3_ERR for r in (res or [])) for res in results]
+    final = wl.facts()
+    events = [e for e in wl.log if e[0] < n and -1 not in e[2:4]]
+    sel, ido = L.sel_table(wl)
+    if wl.facts() != final and not any(raised):
+        ctx.mismatch('update_elements is not idempotent on the final state', case, final, wl.facts())
+    req = {'op': 'xwreplay', 'threads': n, 'sel': sel, 'idOf': ido, 's0': s0, 'events': events, **variant}
+    lbatch.append((req, case, {'facts': fact_strings(final), 'raised': raised}, n))
+    # the same documents, sequentially, on another schema object: same final state (as canonical facts)
+    if not any(raised):
+        seq = fresh(base.xsd, True)
+        Events.tids = {threading.get_ident(): 0}
+        wl2 = L.instrument_widening(seq, Events.tid)
+        for job in jobs:
+            for op, xml in job:
+                call(seq, op, xml)
+        wl2.on = False
+        ctx.traces += 1
+        if canon_facts(wl2) != canon_facts(wl):
+            ctx.failure('after the threaded validations the shared widening state of the schema differs from the state '
+                        'after the same calls made sequentially', full,
+                        {'threaded': canon_facts(wl), 'sequential': canon_facts(wl2)})
+    # the caches
+    cl = hooks.cl
+    if cl is not None and cl.log:
+        fvals: dict = {}
+        bad = None
+        for t, k, key, v, _ in cl.log:
+            if k in ('store', 'direct'):
+                if key in fvals and fvals[key] != v:
+                    bad = (cl.key_names[key], v, fvals[key])
+                fvals.setdefault(key, v)
+        if bad:
+            ctx.mismatch('a memoised function computed two different values for one key (not deterministic)', case, bad, None)
+        for t, k, key, v, _ in cl.log:
+            if k == 'look' and v and key not in fvals:
+                fvals[key] = v - 1          # entry that was in the cache before the threads started
+        pre = [[0, 'look', key, 0, 0] for key in []]
+        evs = []
+        warm: set = set()
+        for e in cl.log:
+            t, k, key, v, _ = e
+            if k == 'look' and v and key not in warm and not any(x[1] == 'store' and x[2] == key for x in evs):
+                # warm entry (cached by the build or by the baseline): load it into the model first
+                evs += [[t, 'look', key, 0, 0], [t, 'compute', key, 0, 0], [t, 'store', key, v - 1, 0], [t, 'ret', key, v - 1, 0]]
+            warm.add(key)
+            evs.append(e)
+        lbatch.append(({'op': 'creplay', 'threads': n * L.CacheLog.NEST, 'f': [[k, v] for k, v in sorted(fvals.items())], 'evictable': False,
+                        'events': evs}, dict(case, part='caches'), {}, n))
+        ctx.count('cache-events', len(cl.log))
+        ctx.count('cache-keys', len(cl.key_names))
+    ctx.count('line-widen:line-events', hooks.lines)
+    ctx.count('line-widen:widen-events', len(events))
+    ctx.count('line-widen:pairs', len(sel))
+    ctx.count('line-widen:switches', sched.switches)
+    nontrivial = sched.inner_switches > 0 and len(events) > 0
+    ctx.case(case, nontrivial, tag=f'line/widen/{kind}/{n} threads')
+
+
+def forced_f3(ctx: Ctx, drv: Optional[Driver], variant: dict) -> None:
+    """C18-F3: thread 0 validates F3_DOCS[0] and is paused inside the first iteration of
+    `for identity in self.selected_by` (collect_key_fields) of child k; thread 1 validates F3_DOCS[1], which binds
+    the same child to a second identity; thread 0 resumes: `next()` raises RuntimeError on the current tree."""
+    from xmlschema.validators.elements import XsdElement
+    import inspect
+    code = XsdElement.collect_key_fields.__code__
+    src, first = inspect.getsourcelines(XsdElement.collect_key_fields)
+    target = [first + i for i, l in enumerate(src) if 'counter = context.identities[identity]' in l]
+    base = Baseline(F3_XSD)
+    reached = {'n': 0}
+
+    def factory(sched: Sched, t: int) -> Callable:
+        def local(frame, event, arg):
+            if event == 'line' and t == 0 and reached['n'] == 0 and frame.f_lineno in target:
+                reached['n'] += 1
+                sched.switch(0, to=1)
+            return local
+
+        def tracer(frame, event, arg):
+            if event == 'call' and frame.f_code is code and t == 0 and reached['n'] == 0:
+                return local
+            return None
+        return tracer
+    sched = Sched(2, random.Random(3), {'first': 0})
+    case = {'forced': 'F3', 'variant': 'line', 'docs': F3_DOCS[:2], 'threads': 2, 'schema': 'f3'}
+    jobs = [[('iter_errors', F3_DOCS[0])], [('iter_errors', F3_DOCS[1])]]
+    batch: list = []
+    schema, results, _ = experiment(ctx, batch, base, dict(case, xsd=F3_XSD), jobs, sched, False, factory)
+    ctx.case(case, reached['n'] > 0, tag='forced:F3/line' + ('' if reached['n'] else ' (window not reached)'))
+    if drv is not None and reached['n']:
+        # the same schedule on the model: pairs 0/1 = (item, Ext, iu) / (item2, Ext, iu2), child 7 = Ext.k
+        m = drv.query([{'op': 'xwexec', 'threads': 2, 'sel': [[0, [7]], [1, [7]]], 'idOf': [[0, 0], [1, 1]], 's0': [],
+                        'progs': [[['widen', 0, [7]], ['child', 7], ['child', 7]], [['widen', 1, [7]], ['child', 7], ['child', 7]]],
+                        'sched': [0] * 10 + [1] * 40 + [0] * 30, **variant}])[0]
+        ctx.traces += 1
+        impl_raised = results[0] is not None and results[0][0][:3] == F3_ERR
+        if (m['pcs'][0] == 'err') != impl_raised:
+            ctx.mismatch('forced F3 schedule: model and code disagree on RuntimeError in thread 0', case,
+                         {'thread0': results[0]}, m)
+
+
+# =============================================================================================
+#  the table of memoised functions, and the hypotheses of the benign-race theorems on the real code
+# =============================================================================================
+# kind of sharing -> which machine of Model/ThreadsCache.lean, which theorem
+SHAPES = {
+    'cached_property': 'Cache.stepTh look/compute/store (functools.cached_property.__get__)',
+    'schema_cache': 'Cache.stepTh look/compute/store + evict (lru_cache behind SchemaCache.__call__)',
+    'schema_lru_cache': 'Cache.stepTh look/compute/store + evict (lru_cache behind SchemaCache.__call__)',
+    'schema_cached_property': 'Cache.stepTh direct while not built, else the lru shape',
+    'cache': 'Cache.stepTh look/compute/store (functools.cache, process-wide, pure function of strings)',
+}
+# scope: 'schema'  = shared by the threads that share one schema object -> cache_benign_all_schedules applies,
+#                    hypothesis (value is a function of the key once the schema is built) checked below
+#        'process' = module-level cache of a pure string function
+#        'local'   = lives on an object that is private to one call / one resource (not shared through the schema)
+MODELLED_CACHES = {
+    ('utils/qnames.py', '', 'get_qname', 'cache'): 'process',
+    ('utils/qnames.py', '', 'local_name', 'cache'): 'process',
+    ('validators/attributes.py', 'XsdAttributeGroup', 'annotation', 'cached_property'): 'schema',
+    ('validators/complex_types.py', 'XsdComplexType', 'is_derived', 'schema_cache'): 'schema',
+    ('validators/complex_types.py', 'XsdComplexType', 'root_type', 'cached_property'): 'schema',
+    ('validators/complex_types.py', 'XsdComplexType', 'sequence_type', 'cached_property'): 'schema',
+    ('validators/elements.py', 'XsdElement', 'is_overlap', 'schema_cache'): 'schema',
+    ('validators/elements.py', 'XsdElement', 'is_restriction', 'schema_cache'): 'schema',
+    ('validators/elements.py', 'XsdElement', 'match_child', 'schema_cache'): 'schema',
+    ('validators/groups.py', 'XsdGroup', 'elements', 'schema_cached_property'): 'schema',
+    ('validators/groups.py', 'XsdGroup', 'is_all_restriction', 'schema_cache'): 'schema',
+    ('validators/groups.py', 'XsdGroup', 'is_element_restriction', 'schema_cache'): 'schema',
+    ('validators/groups.py', 'XsdGroup', 'is_restriction', 'schema_cache'): 'schema',
+    ('validators/groups.py', 'XsdGroup', 'is_sequence_restriction', 'schema_cache'): 'schema',
+    ('validators/groups.py', 'XsdGroup', 'match_element', 'schema_cache'): 'schema',
+    **{('validators/schemas.py', 'XMLSchemaBase', n, 'cached_property'): 'schema' for n in (
+        'annotations', 'attribute_groups', 'attributes', 'complex_types', 'components', 'elements', 'groups', 'id',
+        'identities', 'no_namespace_schema_location', 'notations', 'root_elements', 'schema_location', 'simple_types',
+        'substitution_groups', 'tag', 'target_prefix', 'types', 'validation_attempted', 'validation_context', 'version',
+        'xpath_node')},
+    ('validators/simple_types.py', 'XsdList', 'is_derived', 'schema_cache'): 'schema',
+    ('validators/simple_types.py', 'XsdSimpleType', 'enumeration', 'cached_property'): 'schema',
+    ('validators/simple_types.py', 'XsdSimpleType', 'is_derived', 'schema_cache'): 'schema',
+    ('validators/simple_types.py', 'XsdSimpleType', 'max_value', 'cached_property'): 'schema',
+    ('validators/simple_types.py', 'XsdSimpleType', 'min_value', 'cached_property'): 'schema',
+    ('validators/wildcards.py', 'XsdAnyElement', 'is_overlap', 'schema_cache'): 'schema',
+    ('validators/wildcards.py', 'XsdOpenContent', 'is_restriction', 'schema_cache'): 'schema',
+    ('validators/wildcards.py', 'XsdWildcard', 'is_restriction', 'schema_cache'): 'schema',
+    **{('validators/xsd_globals.py', 'XsdGlobals', n, 'cached_property'): 'schema' for n in (
+        'any_atomic_type', 'any_simple_type', 'any_type', 'validation_attempted', 'validity', 'xpath_constructors')},
+    **{('validators/xsdbase.py', 'XsdComponent', n, 'cached_property'): 'schema' for n in (
+        'annotation', 'annotations', 'display_name', 'local_name', 'prefixed_name', 'qualified_name')},
+    ('validators/xsdbase.py', 'XsdComponent', 'get_global', 'schema_cache'): 'schema',
+    ('validators/xsdbase.py', 'XsdComponent', 'get_parent_type', 'schema_cache'): 'schema',
+    ('validators/xsdbase.py', 'XsdComponent', 'is_override', 'schema_cache'): 'schema',
+    ('validators/xsdbase.py', 'XsdType', 'is_blocked', 'schema_cache'): 'schema',
+    ('validators/xsdbase.py', 'XsdType', 'overall_max_occurs', 'schema_cache'): 'schema',
+    ('validators/xsdbase.py', 'XsdType', 'overall_min_occurs', 'schema_cache'): 'schema',
+    ('xpath/selectors.py', 'ElementSelector', 'depth', 'cached_property'): 'local',
+    ('xpath/selectors.py', 'ElementSelector', 'relative_path', 'cached_property'): 'local',
+    ('xpath/selectors.py', 'ElementSelector', 'select_all', 'cached_property'): 'local',
+    # hand-written lazy fields
+    ('exports.py', 'XsdSource', 'get_location_path', 'lazyfield:substitutions'): 'local',
+    ('resources/xml_loader.py', 'XMLResourceLoader', 'parent_map', 'lazyfield:_parent_map'): 'local',
+    ('xpath/mixin.py', 'XPathElement', 'xpath_node', 'lazyfield:_xpath_node'): 'local',
+    # `_built` of a component, set in the `finally` of its build(): written under the build lock only
+    ('validators/assertions.py', 'XsdAssert', 'build', 'lazyfield:_built'): 'build-lock',
+    ('validators/elements.py', 'XsdElement', 'build', 'lazyfield:_built'): 'build-lock',
+    ('validators/groups.py', 'XsdGroup', 'build', 'lazyfield:_built'): 'build-lock',
+    ('validators/identities.py', 'XsdIdentity', 'build', 'lazyfield:_built'): 'build-lock',
+    # state of a model visitor created per call
+    ('validators/models.py', 'InterleavedModelVisitor', '__init__', 'lazyfield:element'): 'local',
+    ('validators/models.py', 'InterleavedModelVisitor', 'advance', 'lazyfield:element'): 'local',
+    ('validators/models.py', 'InterleavedModelVisitor', 'clear', 'lazyfield:element'): 'local',
+    ('validators/models.py', 'SuffixedModelVisitor', '__init__', 'lazyfield:element'): 'local',
+    ('validators/models.py', 'SuffixedModelVisitor', 'advance', 'lazyfield:element'): 'local',
+    ('validators/models.py', 'SuffixedModelVisitor', 'clear', 'lazyfield:element'): 'local',
+}
+
+
+# who evicts: (file, function) -> modelled as `evict`/`clear` ops issued by the building thread (after `_built = True`:
+# schemas.py clear; before it: maps __setattr__ and SchemaCache.clear through XsdGlobals.clear) — component __dict__s
+# are never evicted
+EVICTION_SITES = [['caching.py', 'SchemaCache.clear'], ['validators/schemas.py', 'XMLSchemaBase.clear'],
+                  ['validators/xsd_globals.py', 'XsdGlobals.__setattr__'],
+                  # parse time only (called from the build, i.e. under the build lock, before `_built = True`)
+                  ['validators/groups.py', 'XsdGroup._any_content_group_fallback'], ['validators/groups.py', 'XsdGroup._parse'],
+                  ['validators/xsdbase.py', 'XsdComponent.parse']]
+
+
+def cache_table(ctx: Ctx) -> list:
+    """Regenerates the table from the source and compares it with the modelled one: a cache that was added,
+    removed or re-decorated breaks the correspondence until it is classified (and, if shared, tied)."""
+    found = L.scan_caches()
+    keys = {tuple(x) for x in found}
+    ctx.traces += 1
+    new = sorted(keys - set(MODELLED_CACHES))
+    gone = sorted(set(MODELLED_CACHES) - keys)
+    if new or gone:
+        ctx.mismatch('the table of memoised functions of /repo differs from the modelled table', {'cache-table': True},
+                     {'not modelled': new, 'not in the source any more': gone}, None)
+    for x in found:
+        kind = x[3].split(':')[0]
+        ctx.count('cache-table:' + kind + '/' + MODELLED_CACHES.get(tuple(x), 'unclassified'))
+        if kind != 'lazyfield' and kind not in SHAPES:
+            ctx.mismatch('memoising decorator without a model shape', {'cache-table': True}, x, None)
+    ctx.extra['cache_table'] = [x + [MODELLED_CACHES.get(tuple(x), 'unclassified')] for x in found]
+    sites = L.eviction_sites()
+    ctx.traces += 1
+    ctx.extra['eviction_sites'] = sites
+    if sorted(s[:2] for s in sites) != sorted(EVICTION_SITES):
+        ctx.mismatch('the places that evict cached properties (`__dict__.pop/clear`, cache_clear) differ from the modelled ones',
+                     {'cache-table': True}, sites, EVICTION_SITES)
+    return found
+
+
+def cache_hypotheses(ctx: Ctx, pools: list) -> None:
+    """The hypotheses of cache_benign_all_schedules, checked on the real objects of built schemas for every
+    schema-shared memoised function of the table:
+      (h-det)  two uncached computations with one key give the same (canonical) value, and the value obtained
+               through the cache is that value;
+      (h₀)     what is already in a cache when `_built` is published (entries computed DURING the build, which
+               `s.clear()` removes only after the publication) equals what is computed after the build.
+    Keys: every component of the schema for the properties; for the methods with arguments, the argument tuples
+    that the validation of the pool documents really uses (recorded at SchemaCache.__call__)."""
+    import functools as ft
+    from xmlschema.caching import SchemaCache, schema_cached_property, _cached_functions
+    from xmlschema.validators.xsd_globals import XsdGlobals
+    orig_call = SchemaCache.__call__
+    for base, docs in pools:
+        recorded: dict = {}
+
+        def rec_call(self, func, *args, **kwargs):      # noqa
+            if not kwargs and len(recorded) < 4000:
+                try:
+                    recorded.setdefault((func, args), None)
+                except TypeError:
+                    pass
+            return orig_call(self, func, *args, **kwargs)
+        # (h₀) snapshot of the caches at the publication of `_built`
+        d = Events.orig if Events.installed else XsdGlobals.__dict__['_built']
+        schema = fresh(base.xsd, False)
+        stale: dict = {}
+        saved = XsdGlobals._built
+
+        def set_(self, v, d=d, schema=schema, stale=stale):      # noqa
+            d.__set__(self, v)
+            if v and self is schema.maps:
+                for s in self._schemas:
+                    if s.maps is self:
+                        for k in list(s._cached_properties()):
+                            if k in s.__dict__:
+                                stale[(s, k)] = L.canon(s.__dict__[k])
+        XsdGlobals._built = property(lambda self, d=d: d.__get__(self, XsdGlobals), set_)
+        try:
+            schema.build()
+        finally:
+            XsdGlobals._built = saved
+        for (s, k), v in stale.items():
+            ctx.traces += 1
+            ctx.count('cache-hyp:entry present at publication')
+            after = L.canon(getattr(s, k))
+            if after != v:
+                ctx.mismatch('a cached property computed during the build and still cached when `_built` is published '
+                             'differs from its value after the build (h₀ of cache_benign_all_schedules)',
+                             {'cache-hyp': k, 'schema': s.name}, v, after)
+        # (h-det)
+        SchemaCache.__call__ = rec_call      # type: ignore
+        try:
+            for x in docs[:8]:
+                call(schema, 'iter_errors', x)
+        finally:
+            SchemaCache.__call__ = orig_call      # type: ignore
+        comps = list(schema.maps.iter_components())[:400] + [schema, schema.maps]
+        props: dict = {}
+        for c in comps:
+            for klass in type(c).__mro__:
+                for name, attr in vars(klass).items():
+                    if isinstance(attr, (ft.cached_property, schema_cached_property)):
+                        props.setdefault((id(c), name), (c, name, attr))
+        for c, name, attr in props.values():
+            present = name in getattr(c, '__dict__', {})
+            try:
+                a, b = L.canon(attr.func(c)), L.canon(attr.func(c))
+                cached = L.canon(getattr(c, name))
+            except Exception as e:      # noqa  (a property may be undefined for a component; then consistently so)
+                ctx.count('cache-hyp:property raises ' + type(e).__name__)
+                continue
+            ctx.traces += 1
+            ctx.count('cache-hyp:property checked')
+            pinned = present and a == b and cached != a and c is not schema and c is not schema.maps \
+                and not isinstance(c, type(schema))
+            if pinned:
+                # an entry of a COMPONENT's __dict__ written during the build (the function read state that the
+                # build changed afterwards): nothing evicts component entries (checked: eviction_sites), so after
+                # the build every thread only reads it — an attribute, not a cache
+                ctx.count('cache-hyp:component entry pinned by the build (read-only afterwards)')
+            elif not (a == b == cached):
+                ctx.mismatch('memoised property is not a function of its key', {'cache-hyp': f'{type(c).__name__}.{name}'},
+                             [a, b], cached)
+        for (func, args) in list(recorded):
+            try:
+                a, b = L.canon(func(*args)), L.canon(func(*args))
+                cached = L.canon(schema.maps.cache(func, *args))
+            except Exception as e:      # noqa
+                ctx.count('cache-hyp:method raises ' + type(e).__name__)
+                continue
+            ctx.traces += 1
+            ctx.count('cache-hyp:method call checked')
+            ctx.count('cache-hyp:method ' + getattr(func, '__qualname__', '?'))
+            if not (a == b == cached):
+                ctx.mismatch('memoised method is not a function of its key', {'cache-hyp': getattr(func, '__qualname__', '?')},
+                             [a, b], cached)
+        # every function that reaches the schema cache is in the table
+        for func in _cached_functions:
+            q = getattr(func, '__qualname__', '')
+            if not any(q == f'{k[1]}.{k[2]}' for k in MODELLED_CACHES):
+                ctx.mismatch('a function registered in the schema cache is not in the modelled table', {'cache-table': True}, q, None)
+
+
+# =============================================================================================
+#  the scratch validation context
+# =============================================================================================
+SCRATCH_XSD = """<xs:schema xmlns:xs="http://www.w3.org/2001/XMLSchema" targetNamespace="urn:s" xmlns:s="urn:s">
+ <xs:simpleType name="U"><xs:union memberTypes="xs:int xs:NCName"/></xs:simpleType>
+ <xs:simpleType name="UP"><xs:restriction base="s:U"><xs:pattern value="[0-9a]+"/></xs:restriction></xs:simpleType>
+ <xs:simpleType name="UQ"><xs:restriction base="s:U"><xs:pattern value="[b-z]+"/></xs:restriction></xs:simpleType>
+ <xs:simpleType name="I"><xs:restriction base="xs:int"><xs:maxInclusive value="9"/></xs:restriction></xs:simpleType>
+ <xs:simpleType name="L"><xs:list itemType="s:UP"/></xs:simpleType>
+ <xs:simpleType name="D"><xs:restriction base="xs:ID"/></xs:simpleType>
+ <xs:element name="r" type="s:UP" fixed="12"/>
+</xs:schema>"""
+SCRATCH_TEXTS = ['12', 'a1', 'abc', 'zz', '7', '70', '', ' 5 ', 'a b', '1 a', 'x']
+
+
+def scratch_noninterference(ctx: Ctx) -> None:
+    """Tie of `scratch_skip_safe`: the value `text_decode(text)` returns on the shared scratch context does not
+    depend on ANY state another thread can leave in it between two statements (the fields `clear()` resets, set
+    to adversarial values after the clear by a hook on raw_decode), for every simple type of the scratch schema
+    and of the pool schema."""
+    from xmlschema.validators.simple_types import XsdSimpleType
+    for xsd in (SCRATCH_XSD, POOL_XSD):
+        schema = fresh(xsd, True)
+        types = [t for t in schema.maps.iter_components(XsdSimpleType)
+                 if t.schema is schema or t.name in ('{http://www.w3.org/2001/XMLSchema}int', '{http://www.w3.org/2001/XMLSchema}ID')]
+        pats = [t.patterns for t in types if getattr(t, 'patterns', None)]
+        for ty in types[:40]:
+            for text in SCRATCH_TEXTS:
+                want = L.canon(ty.text_decode(text))
+                for pol in range(4):
+                    sc = schema.validation_context
+                    orig = type(ty).raw_decode
+
+                    # one-shot pollution right after the clear(): patch on the instance's class for this call only
+                    flag = {'done': False}
+
+                    def once(self, obj, validation, context, orig=orig, pol=pol, sc=sc, flag=flag):      # noqa
+                        if context is sc and not flag['done']:
+                            flag['done'] = True
+                            if pol == 0 and pats:
+                                context.patterns = pats[0]
+                            elif pol == 1:
+                                context.errors.append(ValueError('left by another thread'))
+                                context.level = 3
+                            elif pol == 2:
+                                context.id_map['12'] = 5
+                                context.id_map['abc'] = 1
+                                context.id_list = ['x']
+                            elif pol == 3 and len(pats) > 1:
+                                context.patterns = pats[-1]
+                                context.attribute = 'other'
+                        return orig(self, obj, validation, context)
+                    klass = type(ty)
+                    klass.raw_decode = once      # type: ignore
+                    try:
+                        got = L.canon(ty.text_decode(text))
+                    except Exception as e:      # noqa
+                        got = 'raised ' + type(e).__name__
+                    finally:
+                        klass.raw_decode = orig      # type: ignore
+                    ctx.traces += 1
+                    ctx.count('scratch:skip-mode decode under polluted scratch context')
+                    if got != want:
+                        ctx.failure('text_decode on the shared scratch context returns a value that depends on what another '
+                                    'thread left in the context', {'scratch': True, 'type': str(ty.name), 'text': text, 'pollution': pol},
+                                    {'clean': want, 'polluted': got})
+
+
+def forced_scratch_lax(ctx: Ctx, drv: Optional[Driver]) -> None:
+    """Replay of `scratch_lax_race_counterexample` on the real code (component-level API `text_is_valid`, which
+    validation of documents does not use — see ASSUMPTIONS): thread 0 is paused before
+    `return not self.schema.validation_context.errors`, thread 1 calls text_is_valid (clears the shared list)."""
+    from xmlschema.validators.simple_types import XsdSimpleType
+    import inspect
+    schema = fresh(SCRATCH_XSD, True)
+    ty = schema.types['UP']
+    code = XsdSimpleType.text_is_valid.__code__
+    src, first = inspect.getsourcelines(XsdSimpleType.text_is_valid)
+    target = [first + i for i, l in enumerate(src) if 'return not self.schema.validation_context.errors' in l]
+    alone = ty.text_is_valid('zz')
+    go, done = threading.Event(), threading.Event()
+    res: dict = {}
+
+    def tracer(frame, event, arg):
+        if event == 'call' and frame.f_code is code:
+            def local(frame, event, arg):
+                if event == 'line' and frame.f_lineno in target and not go.is_set():
+                    go.set()
+                    done.wait(10)
+                return local
+            return local
+        return None
+
+    def w0() -> None:
+        sys.settrace(tracer)
+        try:
+            res[0] = ty.text_is_valid('zz')
+        finally:
+            sys.settrace(None)
+    th = threading.Thread(target=w0, daemon=True)
+    th.start()
+    reached = go.wait(10)
+    res[1] = ty.text_is_valid('12')
+    done.set()
+    th.join(10)
+    case = {'forced': 'scratch-lax', 'type': 'UP', 'texts': ['zz', '12']}
+    ctx.case(case, bool(reached), tag='forced:scratch-lax')
+    if drv is not None:
+        m = drv.query([{'op': 'sexec', 'threads': 2, 'users': [
+            {'lax': True, 'pat': 5, 'val': 1, 'rej': [5]}, {'lax': True, 'pat': 5, 'val': 2, 'rej': []}],
+            'sched': [0, 0, 0, 0, 0, 0, 0] + [1] * 9 + [0]}])[0]
+        ctx.traces += 1
+        model_wrong = m['pcs'][0] == 'fin:1:true'
+        impl_wrong = res.get(0) is True and alone is False
+        ctx.extra['scratch_lax_race'] = {'alone': alone, 'thread0_in_race': res.get(0), 'model_thread0': m['pcs'][0]}
+        if reached and model_wrong != impl_wrong:
+            ctx.mismatch('forced scratch-lax schedule: model and code disagree on the verdict of thread 0', case,
+                         {'alone': alone, 'in_race': res.get(0)}, m)
+
+
+
 def load_findings() -> list:
     if FINDINGS_FILE.exists():
         return json.loads(FINDINGS_FILE.read_text()).get('findings', [])
     return []
 
 
+def known_match_f3(case: Any, detail: Any) -> Optional[str]:
+    """C18-F3: ONLY on the schema F3_XSD (two identity constraints of different element declarations select the
+    same child of a shared xsi:type), ONLY a call that single-threaded returns a verdict and in a thread escapes
+    with exactly `RuntimeError: Set changed size during iteration` (the set iterator of
+    `for identity in self.selected_by` in XsdElement.collect_key_fields)."""
+    if not isinstance(case, dict) or case.get('xsd') != F3_XSD:
+        return None
+    if not any(f.get('id') == 'C18-F3' and f.get('status') == 'known' for f in load_findings()):
+        return None
+    if not isinstance(detail, dict) or detail.get('op') not in OPS:
+        return None
+    if detail.get('threaded') != F3_ERR or not isinstance(detail.get('single'), list) or detail['single'][0] == 'raised':
+        return None
+    if not L.code_variant()['live']:
+        return None
+    return 'C18-F3'
+
+
 def known_match(case: Any, detail: Any) -> Optional[str]:
     """C18-F2: ONLY the forced statement-level window inside XsdIdentity.update_elements (thread 0 paused
     between `self.elements[e] = …` and `e.selected_by.add(self)`), ONLY thread 1 missing the duplicate
     `unique` value of the widened child.  Everything else is reported."""
+    f3 = known_match_f3(case, detail)
+    if f3:
+        return f3
     if not isinstance(case, dict) or case.get('forced') != 'F2' or case.get('variant') != 'line':
         return None
     if not any(f.get('id') == 'C18-F2' and f.get('status') == 'known' for f in load_findings()):
@@ -648,6 +1393,37 @@ def run(ctx: Ctx, driver_ok: bool) -> None:
         forced_window(ctx, base, drv, 'F1')
         forced_window(ctx, base, drv, 'F2')
         forced_built_window(ctx, base)
+        variant = L.code_variant()
+        ctx.extra['code_variant'] = variant
+        forced_f3(ctx, drv, variant)
+        forced_scratch_lax(ctx, drv)
+        # 0b. the table of memoised functions and the hypotheses of the benign-race theorems
+        cache_table(ctx)
+        cache_hypotheses(ctx, pools[:ctx.pick(2, 4)])
+        scratch_noninterference(ctx)
+        # 0c. LINE granularity inside the modelled functions, 2-3 threads, small schemas
+        lbatch: list = []
+        if not L.BuildLines().ok:
+            ctx.mismatch('XsdGlobals.build does not have the shape of the modelled double-checked lock', {'build-shape': True}, None, None)
+        f3base = Baseline(F3_XSD)
+        n_line = ctx.pick(150, 1500)
+        for i in range(n_line):
+            seed = ctx.rng.getrandbits(48)
+            n = ctx.rng.choice([2, 2, 3])
+            p_line = ctx.rng.choice([0.05, 0.2, 0.5, 1.0])
+            kind = i % 3
+            if kind == 0:
+                line_build_experiment(ctx, lbatch, base if i % 2 == 0 else f3base, POOL_DOCS if i % 2 == 0 else F3_DOCS, n, seed, p_line, i)
+            elif kind == 1:
+                line_widen_experiment(ctx, lbatch, f3base, F3_DOCS, n, seed, p_line, i, variant, 'f3')
+            else:
+                line_widen_experiment(ctx, lbatch, base, [POOL_DOCS[j] for j in (1, 2, 3, 11, 0)], n, seed, p_line, i, variant, 'pool')
+            if len(lbatch) > 40:
+                flush_lines(ctx, lbatch, drv)
+            if ctx.time_left() < 300:
+                ctx.notes.append(f'line-level schedules stopped at {i + 1} (time budget)')
+                break
+        flush_lines(ctx, lbatch, drv)
         # 1. controlled schedules
         n_sched = ctx.pick(500, 5000)
         for i in range(n_sched):
@@ -695,8 +1471,13 @@ def run(ctx: Ctx, driver_ok: bool) -> None:
         sys.setswitchinterval(old_interval)
         Events.target = None
     ctx.extra['explanation'] = ('controlled schedules at library-call granularity (PCT-style switch points, coin '
-                                'flips, dense switching during the build race), forced F1/F2 windows, free-running '
-                                'stress with switch interval 1e-6 s; build-lock event logs replayed on the Lean model')
+                                'flips, dense switching during the build race), forced F1/F2/F3 windows, free-running '
+                                'stress with switch interval 1e-6 s; build-lock event logs replayed on the Lean model; '
+                                'LINE-granularity schedules inside build / update_elements / raw_decode / '
+                                'collect_key_fields / the cache front ends with replay of the line + shared-state event '
+                                'logs on the statement-level models (replayL, xwreplay, creplay); table of memoised '
+                                'functions regenerated from the source; hypotheses of the benign-race theorems checked '
+                                'on the real objects')
 
 
 def search(ctx: Ctx) -> None:
@@ -726,7 +1507,32 @@ def replay(ctx: Ctx, obj: dict) -> int:
     case = obj.get('input') or {}
     if not isinstance(case, dict):
         return 0
-    if case.get('forced'):
+    drv = None
+    try:
+        drv = Driver('drv_c18')
+    except Exception:   # noqa
+        pass
+    ctx.known.extend(f for f in load_findings() if f.get('property') == 'C18')
+    if case.get('line') and ('line-widen' in case or 'line-build' in case):
+        # a line-level schedule: same seed, same plan (the scheduler is deterministic given the seed)
+        base = Baseline(case['xsd'])
+        lbatch: list = []
+        if 'line-widen' in case:
+            line_widen_experiment(ctx, lbatch, base, case['docs'], case['threads'], case['seed'], case['p_line'],
+                                  case['line-widen'], L.code_variant(), case.get('schema', 'replay'))
+        else:
+            line_build_experiment(ctx, lbatch, base, case['docs'], case['threads'], case['seed'], case['p_line'], case['line-build'])
+        flush_lines(ctx, lbatch, drv)
+        for m in ctx.mismatches[:3]:
+            print('MODEL != CODE:', m['correspondence'], json.dumps(m['model'])[:600])
+    elif case.get('scratch'):
+        scratch_noninterference(ctx)
+    elif case.get('forced') == 'F3':
+        forced_f3(ctx, drv, L.code_variant())
+    elif case.get('forced') == 'scratch-lax':
+        forced_scratch_lax(ctx, drv)
+        print(ctx.extra.get('scratch_lax_race'))
+    elif case.get('forced'):
         base = Baseline(POOL_XSD)
         if case['forced'] == 'B':
             forced_built_window(ctx, base)
